@@ -211,6 +211,11 @@ def snapshot(family, v):
     return ("py", copy.deepcopy(v))
 
 
+def is_empty_valid(family, obj):
+    """a VALID header object whose header_value is '' (possible for Accept and Accept-Encoding only)"""
+    return hasattr(obj, "header_value") and obj.header_value == "" and kind_of(family, obj) == "valid"
+
+
 def elements_of(family, obj):
     return canon_parsed(family, obj.parsed) or []
 
@@ -320,8 +325,8 @@ def oracle_add(family, left, right, mode="add"):
     side = "reflected" if left["t"] != "hdr" else "left"
     cls = "%s-%s-%s" % (ref_kind(family, left) if left["t"] == "hdr" else left["t"],
                         ref_kind(family, right) if right["t"] == "hdr" else right["t"], side)
+    empty = is_empty_valid(family, lo) or is_empty_valid(family, ro)
     if isinstance(res, Err):
-        empty = (left["t"] == "hdr" and left["v"] == "") or (right["t"] == "hdr" and right["v"] == "")
         return ("add:raises:%s" % ("empty-valid-header-operand" if empty else cls), "%s raised %s" % (what, res.name))
     if before != after:
         return ("add:operand-modified", "%s modified an operand: %r -> %r" % (what, before, after))
@@ -333,7 +338,6 @@ def oracle_add(family, left, right, mode="add"):
     want = ref_operand_elements(family, left) + ref_operand_elements(family, right)
     got = elements_of(family, res)
     if got != want:
-        empty = (left["t"] == "hdr" and left["v"] == "") or (right["t"] == "hdr" and right["v"] == "")
         return ("add:elements:%s" % ("empty-valid-header-operand" if empty else cls),
                 "%s gives a %s header %r with elements %r; expected the left operand's elements followed by the right's: %r"
                 % (what, k, res.header_value, got, want))
@@ -351,10 +355,10 @@ def oracle_chain(family, first, steps):
     acc = build_operand(family, first)
     want = ref_operand_elements(family, first)
     what = "%s: %s" % (family, json.dumps(first))
-    empty = False   # has a valid header object with header_value '' been an operand so far?
     for side, op in steps:
         o = build_operand(family, op)
-        empty = empty or getattr(acc, "header_value", None) == "" or getattr(o, "header_value", None) == ""
+        # is a valid header object with header_value '' an operand of THIS step?
+        empty = is_empty_valid(family, acc) or is_empty_valid(family, o)
         what += (" + %s" if side == "r" else " (+) reflected %s") % json.dumps(op)
         try:
             acc = (acc + o) if side == "r" else (o + acc)
@@ -422,15 +426,16 @@ def oracle_property_iadd(family, pre, op):
     req = blank_request({KEY[family]: pre} if pre is not None else None)
     attr = ATTR[family]
     o = build_operand(family, op)
+    empty = is_empty_valid(family, getattr(req, attr)) or is_empty_valid(family, o)
     what = "%s=%r; request.%s += %s" % (KEY[family], pre, attr, json.dumps(op))
     try:
         setattr(req, attr, getattr(req, attr) + o)
     except Exception as e:  # noqa
-        return ("add:raises:%s" % ("empty-valid-header-operand" if pre == "" else "property-iadd"), "%s raised %s" % (what, type(e).__name__))
+        return ("add:raises:%s" % ("empty-valid-header-operand" if empty else "property-iadd"), "%s raised %s" % (what, type(e).__name__))
     want = ref_operand_elements(family, {"t": "hdr", "v": pre}) + ref_operand_elements(family, op)
     got = elements_of(family, getattr(req, attr))
     if got != want:
-        return ("add:elements:%s" % ("empty-valid-header-operand" if pre == "" else "property-iadd"),
+        return ("add:elements:%s" % ("empty-valid-header-operand" if empty else "property-iadd"),
                 "%s reads back elements %r, expected %r" % (what, got, want))
     return None
 
@@ -597,11 +602,6 @@ def c_opnd(family, op):
     raise ValueError(op)
 
 
-def model_safe(family, op):
-    """operands the Gallina model covers: text over code points, qualities as thousandths"""
-    return True
-
-
 # =========================================================================== implementation adaptors for the correspondence
 def impl_obs_value(family, value):
     k, _, parsed, text = observe(family, getattr(ap(), CREATE[family])(value))
@@ -644,10 +644,6 @@ def op_ok(op):
 
 
 # =========================================================================== the check
-def classify_chain_case(case):
-    return case
-
-
 def run_oracle(case):
     k = case["kind"]
     f = case.get("family")
